@@ -18,7 +18,7 @@ use vstd::prelude::*;
 use std::collections::HashMap;
 use std::collections::hash_map::Entry;
 use vstd::std_specs::hash::EntrySpecFns;
-//@dropped storage.rs: `all_values`, `stores_as_values` (iterator chains, for_each/map closures — outside Verus; C06's "all generations are exported as storage-write values" is NOT under contract here), derived Clone/Debug/Eq/PartialEq of Storage, the #[cfg(test)] module
+//@dropped storage.rs: `all_values`, `stores_as_values` (iterator chains, for_each/map closures: not in THIS unit — under contract in unit collect, C06.collect.stores_as_values.*), derived Clone/Debug/Eq/PartialEq of Storage, the #[cfg(test)] module
 //@dropped the value tree: `RuntimeBoxedVal = Arc<SymbolicValue<()>>` is an OPAQUE stand-in (BoxedVal); `RSV::new` is an A-CALLEE stand-in with the part of its contract proved in unit value_size that is used here (C18.vs.new.no_limit_untouched); its size precondition (`child_size() + 1` does not overflow) is NOT re-stated here
 //@dropped callers (SLoad::execute / SStore::execute, VMState fork = Storage::clone) are not under contract in this unit
 
